@@ -84,7 +84,10 @@ def rule_dual(ctx):
                  "either order; hyperbolic_rep requests diagonalize=True")
     f = ctx.p.get_function(COX, "CoxeterGroup.canonical_representation")
     r.analysed(f)
-    calls = [n for n in ast.walk(f.node) if isinstance(n, ast.Call)
+    from ..norm import forward_subst
+    rets, _ = forward_subst(f.node)
+    calls = [n for e in rets if e is not None for n in ast.walk(e)
+             if isinstance(n, ast.Call)
              and isinstance(n.func, ast.Attribute)
              and n.func.attr in ("compose", "_compose")]
     if len(calls) != 1:
@@ -97,10 +100,10 @@ def rule_dual(ctx):
         base = c.func.value
         if isinstance(base, ast.Call) and dotted(base.func) == \
                 "self.geometric_representation":
-            r.ok("DU", "canonical_representation:base", loc(f, base),
+            r.ok("DU", "canonical_representation:base", loc(f, f.node),
                  dotted(base)[:80], "built from the geometric representation")
         else:
-            r.violation("DU", f"{f.fq}|base", loc(f, c), dotted(c)[:120],
+            r.violation("DU", f"{f.fq}|base", loc(f, f.node), dotted(c)[:120],
                         "the canonical representation is not derived from "
                         "self.geometric_representation(..)",
                         instance="canonical_representation:base")
